@@ -108,9 +108,25 @@ func taggedLeafDoc(segs []string, leaf any, tag string) map[string]any {
 }
 
 func c01SchemaCase(p schemaPath, kind int, position string) (c01Case, bool) {
+	return c01SchemaCaseLeaf(p, c01Kinds[kind].V(), c01Kinds[kind].Name, position)
+}
+
+// c01HostileStrings are string contents aimed at the short-syntax parsers, the path resolvers, the converters
+// and interpolation: each is a legal YAML string, whatever the loader then makes of it.
+var c01HostileStrings = []string{
+	`\\srv\`, `\\`, `\\srv`, `\\srv\share`, `\`, `C:`, `C:\`, `c:/`, `C:\x:/y:ro:z`, `//`, `/`, `.`, `..`, `~`, `~/`, `~user/x`, `./`, `../`,
+	`:`, `::`, `a:`, `:b`, `a:b:c:d:e`, `/a:/b:zz`, `/a:/b:ro,z,Z,rshared,nocopy`, `[::1]:80:80`, `[::1`, `::1:80:80`, `1-2-3:4`, `80-81:80-83`, `80-70`, `65536`, `-1:80`, `80/`, `/tcp`, `80:80/sctp/x`, `0.0.0.0::80`, `1.2.3.4:`,
+	`=`, `=x`, `x=`, `x==y`, `a=b=c`, ` `, `  x  `, "\t", "a\nb", "\u0000", "\u2028", "é", `"`, `'`, "`", `#`, ` #c`, `%`, `*`, `&a`, `!t`, `|`, `>`, `- `, `? `, `{`, `}`, `[`, `]`, `,`,
+	`$`, `${`, `${X`, `$$`, `${X:-${`, `${X:?}`, `${:-x}`, `$X$`, `${X}${`, `$${X}`, `${X:-$}`,
+	`0`, `-`, `--`, `-0`, `+1`, `1e3`, `0x`, `0x10`, `0o7`, `12345678901234567890`, `1.2.3`, `.5`, `5.`, `1_0`, `NaN`, `Inf`, `null`, `Null`, `~`, `true`, `yes`, `Y`, `off`,
+	`1h2`, `-1s`, `1y`, `999999999999h`, `1.5.5s`, `s`, `1 s`, `1gbb`, `-5m`, `5 m`, `0.5.5g`, `1kib`, `9999999999999g`, `b`,
+	`service:`, `service:nosuch`, `container:`, `host`, `none`, `default`, `svc`, `svc:`, `svc:ro:x`, `:ro`,
+	`tcp://`, `http://`, `git@`, `://`, `docker-image://`, `file:///etc/passwd`, `2001-01-01`, `12:30:45`,
+}
+
+func c01SchemaCaseLeaf(p schemaPath, leaf any, kindName string, position string) (c01Case, bool) {
 	segs := p.Segs
-	leaf := c01Kinds[kind].V()
-	cs := c01Case{Path: p.String(), Kind: c01Kinds[kind].Name, Position: position}
+	cs := c01Case{Path: p.String(), Kind: kindName, Position: position}
 	isService := len(segs) >= 2 && segs[0] == "services"
 	fat := fatTreeCached()
 	if !c01FullBase {
@@ -494,8 +510,11 @@ func genC01Mutated(t *rapid.T) c01Case {
 		}
 		ref := nodes[rapid.IntRange(0, len(nodes)-1).Draw(t, "node")]
 		var nv any
-		op := rapid.SampledFrom([]string{"kind", "kind", "kind", "delete", "alias", "merge", "wrap-list", "dup-in-list", "big-int", "yaml11"}).Draw(t, "mut")
+		op := rapid.SampledFrom([]string{"kind", "kind", "kind", "delete", "alias", "merge", "wrap-list", "dup-in-list", "big-int", "yaml11", "string-shape", "string-shape"}).Draw(t, "mut")
 		switch op {
+		case "string-shape":
+			nv = rapid.SampledFrom(c01HostileStrings).Draw(t, "shape")
+			what = append(what, "string-shape")
 		case "kind":
 			k := rapid.IntRange(0, len(c01Kinds)-1).Draw(t, "kind")
 			nv = c01Kinds[k].V()
@@ -597,6 +616,34 @@ func TestC01(t *testing.T) {
 			// position does not apply to this path: fall back to "alone" so the slot is not wasted
 			cs, _ = c01SchemaCase(paths[s.p], s.k, "alone")
 		}
+		return cs
+	}, c01Check, true)
+
+	// (1b) string contents: every schema position that admits a string x hostile string shapes
+	var strPaths []int
+	for pi, p := range paths {
+		for _, ty := range p.Types {
+			if ty == "string" {
+				strPaths = append(strPaths, pi)
+				break
+			}
+		}
+	}
+	strPositions := []string{"alone"}
+	if c.Thorough() {
+		strPositions = []string{"alone", "override-onto-valid", "extends-other-file-base", "included-file"}
+	}
+	c.Extra("string_shapes", map[string]any{"paths_admitting_string": len(strPaths), "shapes": len(c01HostileStrings), "positions": strPositions})
+	RunEnum(c, t, "schema-string-shapes", len(strPaths)*len(c01HostileStrings)*len(strPositions), func(i int) c01Case {
+		pos := strPositions[i%len(strPositions)]
+		i /= len(strPositions)
+		str := c01HostileStrings[i%len(c01HostileStrings)]
+		p := paths[strPaths[i/len(c01HostileStrings)]]
+		cs, ok := c01SchemaCaseLeaf(p, str, "string-shape", pos)
+		if !ok {
+			cs, _ = c01SchemaCaseLeaf(p, str, "string-shape", "alone")
+		}
+		cs.What = "string-shape"
 		return cs
 	}, c01Check, true)
 
